@@ -11,10 +11,13 @@
 
   What is and is not claimed (the property as written is FALSE of the code where views are old: findings F4/F5):
   * per call, for every status content: `paused_iff`, `turned_iff`, `dead_cleaned`, `wake_at_deadline`;
-  * for every label list: `withdrawn_stays(_from)`;
-  * under the guard "every processed view is current OR BENIGN" (`Stable.current`, resp. batches of `deliver`; benign =
-    same verdict and same cleaning as the current status, `benign_stale_eq_deliver`): the `…_partial` theorems; outside
-    it `stale_view_two_active_witness` (F4 in Lean, replayed on the real code: corpus/C13/F4.json) and
+  * for every label list, guard "no self-touch of the exiting operator in flight": `withdrawn_stays(_from)_partial`; without
+    it `selftouch_in_flight_witness` (F9, corpus/C13/F9.json);
+  * under the guard "every processed view is current OR BENIGN" (`Stable.current`, resp. `Quiet` interleavings and batches
+    of `deliver`; benign = same verdict and same cleaning as the current status: `benign_stale_eq_deliver` for one step,
+    `benign_run_eq_current` for whole runs): the `…_partial` theorems (`exactly_top`, `at_most_one_active`,
+    `equal_priority_both_paused`, `settle`, `failover_exit`, `failover_after_loss`); outside it
+    `stale_view_two_active_witness` (F4 in Lean, replayed on the real code: corpus/C13/F4.json) and
     `restart_stale_view_two_active_witness` (F5, corpus/C13/F5.json);
   * the graceful stop of the code is the proper one with a window in between (`exit_two_phase`); in that window the
     successor and the exiting operator are both active (`exit_overlap_two_active_witness`, F7, corpus/C13/F7.json);
@@ -36,10 +39,10 @@ theorem paused_iff {u : Int} {st : List (Identity × RawEntry)} {me : Identity} 
     {now now2 : Int} {d : Decision} (h : decideEv u st me p ac (some t0) now now2 = .ok d) :
     (d.paused = some true ∨ d.paused = some false) ∧
     (d.paused = some true ↔
-      ∃ i e q, (i, e) ∈ st ∧ mkPeer now i e = .ok q ∧ i ≠ me ∧ q.isDead u now = false ∧
+      ∃ i e q, (i, e) ∈ st ∧ mkPeer u now i e = .ok q ∧ i ≠ me ∧ q.isDead u now = false ∧
         ∃ x, q.prio = some x ∧ x ≥ p) := by
   unfold decideEv at h
-  cases hp : parseAll now st with
+  cases hp : parseAll u now st with
   | error e => simp [hp] at h
   | ok ps =>
     simp only [hp] at h
@@ -183,11 +186,41 @@ theorem benign_stale_eq_deliver {u : Int} {s : State} {i : Identity} {view : Sta
     step u s (.deliverStale i view) = step u s (.deliver i) :=
   benign_eq_deliver ho hb
 
+/-- … and so for whole runs: a run along which every older view is benign (`benignRun`) IS the run in which those views
+    are the current status (`Label.current` turns `deliverStale i view` into `deliver i`): the same end state, or both
+    not runs. Every `_partial` theorem below that is stated for `deliver` labels (`Quiet` interleavings, batches of
+    deliveries) therefore applies verbatim to the real runs in which events arrive late but harmlessly. -/
+theorem benign_run_eq_current {u : Int} : ∀ (ls : List Label) (s : State), benignRun u s ls = true →
+    run u s ls = run u s (ls.map Label.current) := by
+  intro ls
+  induction ls with
+  | nil => intro s _; rfl
+  | cons l rest ih =>
+    intro s hb
+    simp only [benignRun, Bool.and_eq_true] at hb
+    obtain ⟨hl, hrest⟩ := hb
+    have hstep : step u s l.current = step u s l := by
+      cases l with
+      | deliverStale i view =>
+        simp only [Label.current]
+        cases ho : s.ops i with
+        | none => simp [step, ho]
+        | some o =>
+          simp only [ho] at hl
+          exact (benign_eq_deliver ho hl).symm
+      | _ => rfl
+    simp only [List.map_cons, run, hstep]
+    cases hs : step u s l with
+    | none => rfl
+    | some s1 =>
+      simp only [hs] at hrest
+      exact ih s1 hrest
+
 /-! ## the graceful stop of the code (finding F7) -/
 
 /-- The code's graceful stop (`exitBegin`: the pinger's `finally` withdraws the record; … ; `exitEnd`: the watchers and the
     handlers they run have stopped) is the proper stop (`exit`) whenever nothing happens in between: the two steps compose
-    to the one. Every difference between the code and `failover_exit_partial`/`withdrawn_stays` is therefore what other
+    to the one. Every difference between the code and `failover_exit_partial`/`withdrawn_stays_partial` is therefore what other
     operators do between the two steps. -/
 theorem exit_two_phase (u : Int) (s : State) (i : Identity) :
     (step u s (.exitBegin i)).bind (fun s1 => step u s1 (.exitEnd i)) = step u s (.exit i) := by
@@ -226,63 +259,21 @@ theorem exit_overlap_two_active_witness :
 /-! ## settling and failover -/
 
 /- Full clause: "… also after the active one exits or is killed" — for every delivery timing. -/
-/-- PARTIAL (guard: the batch consists of current-view deliveries only). From ANY state in which the operators see each
-    other (`Good`) — e.g. right after the top one exited, or after a killed one's record expired while the others renewed
-    theirs —, once every running operator has processed the status (in any order, any number of times), exactly the top
-    one is active, and the operators still see each other. -/
-theorem settle_partial {u : Int} {s s' : State} (hg : Good u s) (ls : List Label)
-    (hdel : ∀ l ∈ ls, ∃ i, l = Label.deliver i)
-    (hcov : ∀ i op, s.ops i = some op → op.alive = true → Label.deliver i ∈ ls)
-    (h : run u s ls = some s') : ExactlyTop s' ∧ Good u s' :=
-  settle hg ls hdel hcov h
-
-/-- PARTIAL (same guard). The active operator exits gracefully; once every remaining running operator has processed the
-    status (in any order, any number of times), exactly the top one of the remaining is active. -/
-theorem failover_exit_partial {u : Int} {s s1 s2 : State} {a : Identity} (hg : Good u s)
-    (h1 : step u s (.exit a) = some s1) (ls : List Label)
-    (hdel : ∀ l ∈ ls, ∃ i, l = Label.deliver i)
-    (hcov : ∀ i op, s1.ops i = some op → op.alive = true → Label.deliver i ∈ ls)
-    (h2 : run u s1 ls = some s2) :
-    ExactlyTop s2 ∧ (∀ op, s2.ops a = some op → op.alive = false) ∧ ∀ r, (a, r) ∉ s2.status := by
-  have hg1 := good_after_exit hg h1
-  obtain ⟨htop, hg2⟩ := settle hg1 ls hdel hcov h2
-  obtain ⟨o, ho, _, _, hst, hops, _⟩ := exit_spec h1
-  obtain ⟨hnow, hstat, hsame, _⟩ := run_delivers ls s1 s2 hdel h2
-  refine ⟨htop, ?_, ?_⟩
-  · intro op hop
-    rcases hsame a with ⟨_, h⟩ | ⟨x, x', hx, hx', _, hal⟩
-    · rw [h] at hop; cases hop
-    · rw [hx'] at hop; injection hop with hop; subst hop
-      rw [hops] at hx; simp at hx; subst hx
-      rw [hal]
-  · intro r hm
-    cases hd : r.dead u s1.now with
-    | false =>
-      have := (hstat a r hd).mp hm
-      rw [hst] at this
-      exact (mem_erase.mp this).2 rfl
-    | true =>
-      -- a dead record of `a` cannot be there either: `exit` erased all of them and deliveries only remove
-      have hsub : ∀ (ls : List Label) (t t' : State), (∀ l ∈ ls, ∃ i, l = Label.deliver i) →
-          run u t ls = some t' → ∀ e ∈ t'.status, e ∈ t.status := by
-        intro ls
-        induction ls with
-        | nil => intro t t' _ h; simp only [run, Option.some.injEq] at h; subst h; exact fun _ h => h
-        | cons l rest ih =>
-          intro t t' hall h e he
-          obtain ⟨k, rfl⟩ := hall l List.mem_cons_self
-          simp only [run] at h
-          cases hk : step u t (.deliver k) with
-          | none => simp [hk] at h
-          | some t1 =>
-            simp only [hk] at h
-            obtain ⟨_, _, _, _, hst1, _, _, _⟩ := deliver_spec hk
-            have := ih t1 t' (fun l hl => hall l (List.mem_cons_of_mem _ hl)) h e he
-            rw [hst1] at this
-            exact (List.mem_filter.mp this).1
-      have := hsub ls s1 s2 hdel h2 _ hm
-      rw [hst] at this
-      exact (mem_erase.mp this).2 rfl
+/-- PARTIAL (guards: current or benign views only — `Quiet` has no `deliverStale`, the last batch is deliveries of the current
+    status —; the running operators' own records fresh at the end: `hown`, which `own_record_fresh` provides for timely
+    runs). From ANY state in which the operators see each other (`Good`) — e.g. right after the top one exited —, ANY
+    interleaving `mid` of passing time, keep-alives, waking self-touches and deliveries may follow; once every running
+    operator has then processed the status (`ls`: in any order, any number of times), exactly the top one is active, and
+    the operators still see each other. (`mid = []`: the batch alone.) -/
+theorem settle_partial {u : Int} {s s2 s3 : State} (hg : Good u s) (hsa : SleepAlive s)
+    (mid : List Label) (hq : ∀ l ∈ mid, Quiet l) (h2 : run u s mid = some s2)
+    (hown : ∀ i o, s2.ops i = some o → o.alive = true →
+      ∃ r, (i, r) ∈ s2.status ∧ r.priority = o.prio ∧ r.dead u s2.now = false)
+    (ls : List Label) (hdel : ∀ l ∈ ls, ∃ i, l = Label.deliver i)
+    (hcov : ∀ i op, s2.ops i = some op → op.alive = true → Label.deliver i ∈ ls)
+    (h3 : run u s2 ls = some s3) : ExactlyTop s3 ∧ Good u s3 := by
+  obtain ⟨hng2, _, hso⟩ := quiet_noGhost mid s s2 hq hg.noGhost hsa h2
+  exact settle ⟨hown, hng2, distinct_sameOps hso hg.distinct⟩ ls hdel hcov h3
 
 /- Full clause: "… also after the active one … is killed" — for every delivery timing. -/
 /-- PARTIAL (guards: the survivors process current or benign views — `Quiet` has no `deliverStale` —, and their own
@@ -458,26 +449,48 @@ theorem own_record_fresh {u B : Int} {s : State} (hu : 0 < u) (hB : 0 ≤ B) (ht
   rw [dead_false_iff, hl]
   omega
 
+/-- The two guards compose: when the state before the final batch was reached by a timely run (`Timely u B s2`: API calls
+    ≤ B ticks with `2·B <` every margin, only benign old views, proper exits — kills and lost exits are allowed in it) and every
+    running operator has touched at least once, `own_record_fresh` discharges `hown` of `failover_after_loss_partial`: an
+    operator is lost, anything `Quiet` follows, the lost one's records have expired ⇒ after a covering delivery exactly the
+    top survivor is active. What remains assumed is that the operators saw each other before the loss (`Good u s`). -/
+theorem failover_after_loss_timely_partial {u B : Int} {s s1 s2 s3 : State} {a : Identity} (hu : 0 < u) (hB : 0 ≤ B)
+    (hg : Good u s) (hsa : SleepAlive s)
+    (h1 : step u s (.kill a) = some s1 ∨ step u s (.exitLost a) = some s1)
+    (mid : List Label) (hq : ∀ l ∈ mid, Quiet l) (h2 : run u s1 mid = some s2)
+    (ht2 : Timely u B s2) (hka : ∀ i o, s2.ops i = some o → o.alive = true → ∃ k, o.nextKA = some k)
+    (hexp : ∀ r, (a, r) ∈ s2.status → r.dead u s2.now = true)
+    (ls : List Label) (hdel : ∀ l ∈ ls, ∃ i, l = Label.deliver i)
+    (hcov : ∀ i op, s2.ops i = some op → op.alive = true → Label.deliver i ∈ ls)
+    (h3 : run u s2 ls = some s3) :
+    ExactlyTop s3 ∧ (∃ o, s2.ops a = some o ∧ o.alive = false) :=
+  failover_after_loss_partial hg hsa h1 mid hq h2 hexp
+    (fun i o ho ha => by obtain ⟨k, hk⟩ := hka i o ho ha; exact own_record_fresh hu hB ht2 ho ha hk)
+    ls hdel hcov h3
+
 /-! ## withdrawal and cleanup -/
 
 /-- an operator that has withdrawn: gone, or still finishing its handlers after the withdrawal (between `exitBegin` and
-    `exitEnd`); in both cases no call of it sleeps towards a self-touch -/
-def Withdrawn (o : Op) : Prop := (o.alive = false ∨ o.exiting = true) ∧ o.sleeping = false
+    `exitEnd`); no call of it sleeps towards a self-touch, and NO SELF-TOUCH OF IT IS IN FLIGHT (issued, not yet applied) -/
+def Withdrawn (o : Op) : Prop := (o.alive = false ∨ o.exiting = true) ∧ o.sleeping = false ∧ o.inflight = none
 
 /-- The withdrawal of a graceful stop — the first thing the code does (`exitBegin`), the last thing it ought to do
-    (`exit`) — removes the own record (all of it), leaves the records of others alone, and the operator has `Withdrawn`: it
-    is gone or only finishing, and no call of it will self-touch. WHEN the withdrawal happens relative to the end of the
-    handling is the difference between the two labels (`exit_two_phase`, F7). -/
+    (`exit`) — removes the own record (all of it), leaves the records of others alone; the operator is then gone or only
+    finishing, and no call of it sleeps towards a self-touch any more. A self-touch that was ALREADY ISSUED stays in flight
+    (`inflight` unchanged: `withdrawn_stays_partial`, F9). WHEN the withdrawal happens relative to the end of the handling
+    is the difference between the two labels (`exit_two_phase`, F7). -/
 theorem withdraw_on_exit {u : Int} {s s' : State} {i : Identity}
     (h : step u s (.exitBegin i) = some s' ∨ step u s (.exit i) = some s') :
     (∀ r, (i, r) ∉ s'.status) ∧ (∀ j r, j ≠ i → ((j, r) ∈ s'.status ↔ (j, r) ∈ s.status)) ∧
-      ∃ o, s'.ops i = some o ∧ Withdrawn o := by
-  have key : s'.status = s.status.erase i ∧ ∃ o, s'.ops i = some o ∧ Withdrawn o := by
+      ∃ o o', s.ops i = some o ∧ s'.ops i = some o' ∧ (o'.alive = false ∨ o'.exiting = true) ∧ o'.sleeping = false ∧
+        o'.inflight = o.inflight := by
+  have key : s'.status = s.status.erase i ∧ ∃ o o', s.ops i = some o ∧ s'.ops i = some o' ∧
+      (o'.alive = false ∨ o'.exiting = true) ∧ o'.sleeping = false ∧ o'.inflight = o.inflight := by
     rcases h with h | h
-    · obtain ⟨o, _, _, _, _, hst, hops, _⟩ := exitBegin_spec h
-      exact ⟨hst, { o with exiting := true, sleeping := false, nextKA := none }, by rw [hops]; simp, Or.inr rfl, rfl⟩
-    · obtain ⟨o, _, _, _, hst, hops, _⟩ := exit_spec h
-      exact ⟨hst, { o with alive := false, sleeping := false, nextKA := none }, by rw [hops]; simp, Or.inl rfl, rfl⟩
+    · obtain ⟨o, ho, _, _, _, hst, hops, _⟩ := exitBegin_spec h
+      exact ⟨hst, o, { o with exiting := true, sleeping := false, nextKA := none }, ho, by rw [hops]; simp, Or.inr rfl, rfl, rfl⟩
+    · obtain ⟨o, ho, _, _, hst, hops, _⟩ := exit_spec h
+      exact ⟨hst, o, { o with alive := false, sleeping := false, nextKA := none }, ho, by rw [hops]; simp, Or.inl rfl, rfl, rfl⟩
   obtain ⟨hst, hw⟩ := key
   refine ⟨?_, ?_, hw⟩
   · intro r hm
@@ -491,9 +504,9 @@ theorem withdraw_on_exit {u : Int} {s s' : State} {i : Identity}
     is dead at `now` — never the own identity (repair abca199), and nobody alive. -/
 theorem dead_cleaned {u : Int} {st : List (Identity × RawEntry)} {me : Identity} {p : Int} {tg : Option Bool}
     {now now2 : Int} {d : Decision} (h : decideEv u st me p true tg now now2 = .ok d) (i : Identity) :
-    i ∈ d.cleaned ↔ i ≠ me ∧ ∃ e q, (i, e) ∈ st ∧ mkPeer now i e = .ok q ∧ q.isDead u now = true := by
+    i ∈ d.cleaned ↔ i ≠ me ∧ ∃ e q, (i, e) ∈ st ∧ mkPeer u now i e = .ok q ∧ q.isDead u now = true := by
   unfold decideEv at h
-  cases hp : parseAll now st with
+  cases hp : parseAll u now st with
   | error e => simp [hp] at h
   | ok ps =>
     simp only [hp] at h
@@ -538,35 +551,39 @@ private theorem stale_not_exiting {u : Int} {s s1 : State} {a : Identity} {v : S
   · exact (guard_iff.mp hg).2
   · simp [hg] at h
 
-/-- An operator that has withdrawn (`Withdrawn`: in the order of the code — record first, handlers last — as well as in the
-    proper order) and has no record stays without a record, whatever else happens in any order — old views, lost exits,
-    late landings, its own `exitEnd`, a kill in the middle of the exit — as long as nobody starts it again or writes a
-    record under its name. NOT covered, because it is not a schedule of the model: a self-touch or keep-alive PATCH of the
-    operator itself still in flight when the withdrawal is issued and landing after it (the model's `wake`/`keepalive`
-    land at once; `exit`/`exitBegin` put `sleeping := false`). On the code that needs the API to apply two PATCHes of one
-    client out of issue order (audit N3: reproduced with injected reordering only — ASSUMPTIONS). -/
-theorem withdrawn_stays_from {u : Int} {i : Identity} : ∀ (ls : List Label) (s s' : State),
-    (∃ o, s.ops i = some o ∧ Withdrawn o) → (∀ r, (i, r) ∉ s.status) →
+/-- what the induction carries: operator `i` is gone or only finishing, none of its calls sleeps, and a self-touch of it is
+    either not in flight or never lands in what follows -/
+def WCore (i : Identity) (ls : List Label) (s : State) : Prop :=
+  ∃ o, s.ops i = some o ∧ (o.alive = false ∨ o.exiting = true) ∧ o.sleeping = false ∧
+    (o.inflight = none ∨ ∀ l ∈ ls, l ≠ Label.land i)
+
+theorem withdrawn_stays_aux {u : Int} {i : Identity} : ∀ (ls : List Label) (s s' : State),
+    WCore i ls s → (∀ r, (i, r) ∉ s.status) →
     (∀ l ∈ ls, (∀ p lt, l ≠ .start i p lt) ∧ (∀ r, l ≠ .foreign i (some r))) →
     run u s ls = some s' → ∀ r, (i, r) ∉ s'.status := by
   intro ls
   induction ls with
   | nil => intro s s' _ hn _ h; simp only [run, Option.some.injEq] at h; subst h; exact hn
   | cons l rest ih =>
-    intro s s' ⟨o, ho, hw⟩ hn hall h
-    obtain ⟨hoa, hos⟩ := hw
+    intro s s' ⟨o, ho, hoa, hos, hfl⟩ hn hall h
     simp only [run] at h
     cases hs : step u s l with
     | none => simp [hs] at h
     | some s1 =>
       simp only [hs] at h
       obtain ⟨hl1, hl2⟩ := hall l List.mem_cons_self
+      -- whether a self-touch of i is in flight does not change along the way; if one is, `land i` is not in the list
+      have hfl1 : ∀ onew : Op, onew.inflight = o.inflight → (onew.inflight = none ∨ ∀ l' ∈ rest, l' ≠ Label.land i) := by
+        intro onew e
+        rcases hfl with h0 | h0
+        · exact Or.inl (by rw [e]; exact h0)
+        · exact Or.inr (fun l' hl' => h0 l' (List.mem_cons_of_mem _ hl'))
       -- an operator j ≠ i that acts leaves i's entry and i's (absent) records alone
       have other : ∀ {j : Identity} {onew : Op}, i ≠ j →
           s1.ops = updOp s.ops j onew → (∀ r, (i, r) ∈ s1.status → (i, r) ∈ s.status) →
-          (∃ o, s1.ops i = some o ∧ Withdrawn o) ∧ ∀ r, (i, r) ∉ s1.status := by
+          WCore i rest s1 ∧ ∀ r, (i, r) ∉ s1.status := by
         intro j onew hji hops hsub
-        exact ⟨⟨o, by rw [hops, updOp_other _ _ hji]; exact ho, hoa, hos⟩, fun r hm => hn r (hsub r hm)⟩
+        exact ⟨⟨o, by rw [hops, updOp_other _ _ hji]; exact ho, hoa, hos, hfl1 o rfl⟩, fun r hm => hn r (hsub r hm)⟩
       -- a label guarded by "running and not exiting" is not i's
       have notme : ∀ {j : Identity} {oj : Op}, s.ops j = some oj → oj.alive = true → oj.exiting = false → i ≠ j := by
         intro j oj hj hja hje e
@@ -577,18 +594,19 @@ theorem withdrawn_stays_from {u : Int} {i : Identity} : ∀ (ls : List Label) (s
         · rw [hje] at h; cases h
       -- i itself ends (exitEnd / kill / lost exit in the middle): still withdrawn, status untouched
       have ends : ∀ {j : Identity} {oj onew : Op}, s.ops j = some oj → s1.ops = updOp s.ops j onew →
-          onew.alive = false → onew.sleeping = false → s1.status = s.status →
-          (∃ o, s1.ops i = some o ∧ Withdrawn o) ∧ ∀ r, (i, r) ∉ s1.status := by
-        intro j oj onew hj hops h1 h2 hst
+          onew.alive = false → onew.sleeping = false → onew.inflight = oj.inflight → s1.status = s.status →
+          WCore i rest s1 ∧ ∀ r, (i, r) ∉ s1.status := by
+        intro j oj onew hj hops h1 h2 h3 hst
         by_cases hji : i = j
         · subst hji
-          exact ⟨⟨onew, by rw [hops]; simp, Or.inl h1, h2⟩, fun r hm => hn r (by rw [hst] at hm; exact hm)⟩
+          rw [ho] at hj; injection hj with hj; subst hj
+          exact ⟨⟨onew, by rw [hops]; simp, Or.inl h1, h2, hfl1 onew h3⟩, fun r hm => hn r (by rw [hst] at hm; exact hm)⟩
         · exact other hji hops (fun r hm => by rw [hst] at hm; exact hm)
       have same : s1.ops = s.ops → (∀ r, (i, r) ∈ s1.status → (i, r) ∈ s.status) →
-          (∃ o, s1.ops i = some o ∧ Withdrawn o) ∧ ∀ r, (i, r) ∉ s1.status := by
+          WCore i rest s1 ∧ ∀ r, (i, r) ∉ s1.status := by
         intro hops hsub
-        exact ⟨⟨o, by rw [hops]; exact ho, hoa, hos⟩, fun r hm => hn r (hsub r hm)⟩
-      have key : (∃ o, s1.ops i = some o ∧ Withdrawn o) ∧ ∀ r, (i, r) ∉ s1.status := by
+        exact ⟨⟨o, by rw [hops]; exact ho, hoa, hos, hfl1 o rfl⟩, fun r hm => hn r (hsub r hm)⟩
+      have key : WCore i rest s1 ∧ ∀ r, (i, r) ∉ s1.status := by
         cases l with
         | start j p lt =>
           obtain ⟨_, hst, _, _, hops⟩ := start_spec hs
@@ -603,16 +621,16 @@ theorem withdrawn_stays_from {u : Int} {i : Identity} : ∀ (ls : List Label) (s
           exact other (notme hj hja (exit_not_exiting hs hj)) hops (fun r hm => by rw [hst] at hm; exact (mem_erase.mp hm).1)
         | exitLost j =>
           obtain ⟨oj, hj, _, _, hst, hops, _⟩ := exitLost_spec hs
-          exact ends hj hops rfl rfl hst
+          exact ends hj hops rfl rfl rfl hst
         | exitBegin j =>
           obtain ⟨oj, hj, hja, hje, _, hst, hops, _⟩ := exitBegin_spec hs
           exact other (notme hj hja hje) hops (fun r hm => by rw [hst] at hm; exact (mem_erase.mp hm).1)
         | exitEnd j =>
           obtain ⟨oj, hj, _, _, _, hst, _, hops⟩ := exitEnd_spec hs
-          exact ends hj hops rfl rfl hst
+          exact ends hj hops rfl rfl rfl hst
         | kill j =>
           obtain ⟨oj, hj, _, _, hst, hops, _⟩ := kill_spec hs
-          exact ends hj hops rfl rfl hst
+          exact ends hj hops rfl rfl rfl hst
         | deliver j =>
           obtain ⟨oj, hj, hja, _, hst, _, _, hops⟩ := deliver_spec hs
           exact other (notme hj hja (deliver_not_exiting hs hj)) hops (fun r hm => by rw [hst] at hm; exact (List.mem_filter.mp hm).1)
@@ -641,17 +659,111 @@ theorem withdrawn_stays_from {u : Int} {i : Identity} : ∀ (ls : List Label) (s
             intro e; subst e
             rw [ho] at hj; injection hj with hj; subst hj; rw [hos] at hjs; cases hjs
           exact other hji hops (fun r hm => by rw [hst] at hm; exact (mem_patch_other (Ne.symm hji)).mp hm)
+        | wakeIssue j =>
+          obtain ⟨oj, hj, hjs, _, _, hst, _, hops⟩ := wakeIssue_spec hs
+          have hji : i ≠ j := by
+            intro e; subst e
+            rw [ho] at hj; injection hj with hj; subst hj; rw [hos] at hjs; cases hjs
+          exact other hji hops (fun r hm => by rw [hst] at hm; exact hm)
+        | land j =>
+          obtain ⟨oj, t, hj, hjt, _, hst, hops, _⟩ := land_spec hs
+          have hji : i ≠ j := by
+            intro e; subst e
+            rw [ho] at hj; injection hj with hj; subst hj
+            rcases hfl with h0 | h0
+            · rw [h0] at hjt; cases hjt
+            · exact h0 _ List.mem_cons_self rfl
+          exact other hji hops (fun r hm => by rw [hst] at hm; exact (mem_patch_other (Ne.symm hji)).mp hm)
       exact ih s1 s' key.1 key.2 (fun l hl => hall l (List.mem_cons_of_mem _ hl)) h
 
-/-- The withdrawal of a graceful stop is permanent — in the order the code has (`exitBegin`: the record goes first, the
-    operator's handlers still run) and in the proper order (`exit`): from the withdrawal on, through anything the other
-    operators, the clock and the operator's own end (`exitEnd`, a kill) do, the record never comes back. -/
-theorem withdrawn_stays {u : Int} {i : Identity} {s s1 s' : State}
-    (h1 : step u s (.exitBegin i) = some s1 ∨ step u s (.exit i) = some s1) (ls : List Label)
+/- Full clause: "removes it on graceful exit" — for good, whatever is in flight. FALSE of the code when a self-touch of the
+   exiting operator is in flight at the withdrawal: `selftouch_in_flight_witness` (F9). -/
+/-- PARTIAL (guard: `Withdrawn` includes "no self-touch of the operator is in flight"). An operator that has withdrawn (in
+    the order of the code — record first, handlers last — as well as in the proper order) and has no record stays without a
+    record, whatever else happens in any order — old views, lost exits, late landings of OTHERS' touches, its own `exitEnd`,
+    a kill in the middle of the exit — as long as nobody starts it again or writes a record under its name. -/
+theorem withdrawn_stays_from_partial {u : Int} {i : Identity} (ls : List Label) (s s' : State)
+    (hw : ∃ o, s.ops i = some o ∧ Withdrawn o) (hn : ∀ r, (i, r) ∉ s.status)
+    (hall : ∀ l ∈ ls, (∀ p lt, l ≠ .start i p lt) ∧ (∀ r, l ≠ .foreign i (some r)))
+    (h : run u s ls = some s') : ∀ r, (i, r) ∉ s'.status := by
+  obtain ⟨o, ho, h1, h2, h3⟩ := hw
+  exact withdrawn_stays_aux ls s s' ⟨o, ho, h1, h2, Or.inl h3⟩ hn hall h
+
+/-- PARTIAL (guard `hin`: no self-touch of the operator is in flight when it withdraws). The withdrawal of a graceful stop
+    is permanent — in the order the code has (`exitBegin`: the record goes first, the operator's handlers still run) and in
+    the proper order (`exit`): from the withdrawal on, through anything the other operators, the clock and the operator's own
+    end (`exitEnd`, a kill) do, the record never comes back. -/
+theorem withdrawn_stays_partial {u : Int} {i : Identity} {s s1 s' : State}
+    (h1 : step u s (.exitBegin i) = some s1 ∨ step u s (.exit i) = some s1)
+    (hin : ∀ o, s.ops i = some o → o.inflight = none) (ls : List Label)
     (hall : ∀ l ∈ ls, (∀ p lt, l ≠ .start i p lt) ∧ (∀ r, l ≠ .foreign i (some r)))
     (h2 : run u s1 ls = some s') : ∀ r, (i, r) ∉ s'.status := by
-  obtain ⟨hn, _, hw⟩ := withdraw_on_exit h1
-  exact withdrawn_stays_from ls s1 s' hw hn hall h2
+  obtain ⟨hn, _, o, o', ho, ho', ha, hs, hf⟩ := withdraw_on_exit h1
+  exact withdrawn_stays_from_partial ls s1 s' ⟨o', ho', ha, hs, by rw [hf]; exact hin o ho⟩ hn hall h2
+
+/-- F9 in Lean (the residue of the repaired F2; audit N3). B (paused by A) sleeps towards the deadline of the killed A's
+    record. At that tick the sleep ends and the call ISSUES its self-touch (`wakeIssue`); in the same tick B is asked to stop:
+    the pinger withdraws the record (`exitBegin`) while the self-touch is still in flight; the API applies the self-touch
+    AFTER the withdrawal (`land`; two concurrent requests have no order). B finishes (`exitEnd`): B is gone, its record is
+    there, live for a whole lifetime — every lower-priority operator stays paused for nobody. The same with the proper
+    order `exit` (second conjunct): the guard of `withdrawn_stays_partial` is needed in both. Replayed on the real code:
+    corpus/C13/F9.json. -/
+theorem selftouch_in_flight_witness :
+    (run 64 init [.start "A" 100 2, .start "B" 10 10, .keepalive "A" 0, .keepalive "B" 0, .deliver "B", .kill "A", .expire "A",
+                  .wakeIssue "B", .exitBegin "B", .land "B", .exitEnd "B"]).map
+        (fun s => (s.now, (s.ops "B").map (fun o => (o.alive, o.exiting)), s.status))
+      = some (128, some (false, false), [("A", ⟨100, 2, 0⟩), ("B", ⟨10, 10, 128⟩)]) ∧
+    (run 64 init [.start "A" 100 2, .start "B" 10 10, .keepalive "A" 0, .keepalive "B" 0, .deliver "B", .kill "A", .expire "A",
+                  .wakeIssue "B", .exit "B", .land "B"]).map
+        (fun s => ((s.ops "B").map (·.alive), s.status))
+      = some (some false, [("A", ⟨100, 2, 0⟩), ("B", ⟨10, 10, 128⟩)]) := by decide
+
+/-! ## failover after a graceful exit -/
+
+/- Full clause: "… also after the active one exits" — for every delivery timing, and in the order the code has (FALSE there:
+   `exit_overlap_two_active_witness`, F7). -/
+/-- PARTIAL (guards: the proper exit order `exit` — with `exitBegin … exitEnd` see F7 —; current or benign views; own records
+    fresh at the end: `hown`). The active (or any other) operator `a` exits gracefully; ANY interleaving `mid` of passing
+    time, keep-alives, waking self-touches and deliveries of the remaining operators may follow; once every remaining
+    running operator has then processed the status, exactly the top one of them is active, `a` is gone and has no record. -/
+theorem failover_exit_partial {u : Int} {s s1 s2 s3 : State} {a : Identity} (hg : Good u s) (hsa : SleepAlive s)
+    (h1 : step u s (.exit a) = some s1)
+    (mid : List Label) (hq : ∀ l ∈ mid, Quiet l) (h2 : run u s1 mid = some s2)
+    (hown : ∀ i o, s2.ops i = some o → o.alive = true →
+      ∃ r, (i, r) ∈ s2.status ∧ r.priority = o.prio ∧ r.dead u s2.now = false)
+    (ls : List Label) (hdel : ∀ l ∈ ls, ∃ i, l = Label.deliver i)
+    (hcov : ∀ i op, s2.ops i = some op → op.alive = true → Label.deliver i ∈ ls)
+    (h3 : run u s2 ls = some s3) :
+    ExactlyTop s3 ∧ (∀ op, s3.ops a = some op → op.alive = false) ∧ ∀ r, (a, r) ∉ s3.status := by
+  have hg1 := good_after_exit hg h1
+  have hsa1 := sleepAlive_step hsa h1
+  obtain ⟨htop, _⟩ := settle_partial hg1 hsa1 mid hq h2 hown ls hdel hcov h3
+  obtain ⟨_, _, hso12⟩ := quiet_noGhost mid s1 s2 hq hg1.noGhost hsa1 h2
+  obtain ⟨_, _, hso23, _⟩ := run_delivers ls s2 s3 hdel h3
+  obtain ⟨o, ho, _, _, _, hops, _⟩ := exit_spec h1
+  refine ⟨htop, ?_, ?_⟩
+  · intro op hop
+    rcases sameOps_trans hso12 hso23 a with ⟨_, h⟩ | ⟨x, x', hx, hx', _, hal⟩
+    · rw [h] at hop; cases hop
+    · rw [hx'] at hop; injection hop with hop; subst hop
+      rw [hops] at hx; simp at hx; subst hx
+      rw [hal]
+  · -- (whether or not a self-touch of `a` is in flight: nothing lands in a `Quiet` interleaving)
+    obtain ⟨hn, _, o0, o', _, ho', hae, hsl, _⟩ := withdraw_on_exit (Or.inr h1)
+    have hnoland : ∀ l ∈ mid ++ ls, l ≠ Label.land a := by
+      intro l hl
+      rcases List.mem_append.mp hl with hm | hm
+      · have := hq l hm
+        cases l <;> simp [Quiet] at this <;> simp
+      · obtain ⟨i, rfl⟩ := hdel l hm
+        simp
+    refine withdrawn_stays_aux (mid ++ ls) s1 s3 ⟨o', ho', hae, hsl, Or.inr hnoland⟩ hn ?_ (by rw [run_append, h2]; exact h3)
+    intro l hl
+    rcases List.mem_append.mp hl with hm | hm
+    · have := hq l hm
+      cases l <;> simp [Quiet] at this <;> exact ⟨fun _ _ => by simp, fun _ => by simp⟩
+    · obtain ⟨i, rfl⟩ := hdel l hm
+      exact ⟨fun _ _ => by simp, fun _ => by simp⟩
 
 /-! ## convergence is always possible -/
 
@@ -814,46 +926,71 @@ example : ∃ s, exStable = some s ∧ Reachable 64 s ∧ Timely 64 2 s ∧ Stab
     exact ⟨s, rfl, hr, ht, exStable_stable s h, exactly_top_partial hr (exStable_stable s h),
       fun i o k ho ha hk => own_record_fresh (by decide) (by decide) ht ho ha hk⟩
 
-/-- `failover_exit_partial` / `settle_partial` instantiated: from that state A exits, B processes the status, B is active. -/
-example : ∃ s s1 s2, exStable = some s ∧ step 64 s (.exit "A") = some s1 ∧ run 64 s1 [.deliver "B"] = some s2 ∧
-    ExactlyTop s2 ∧ (s2.ops "B").map (·.paused) = some false := by
+set_option synthInstance.maxSize 1024 in
+/-- `failover_exit_partial` (hence `settle_partial`) instantiated with a `mid` that is not empty: from the stable state A
+    exits gracefully; B processes the status (and resumes), 2 s pass, B renews, another second passes; B's own record is
+    fresh; B processes the status once more: exactly B is active, A is gone without a record. -/
+example : ∃ s s1 s2 s3, exStable = some s ∧ step 64 s (.exit "A") = some s1 ∧
+    run 64 s1 [.deliver "B", .tick 128, .keepalive "B" 1, .tick 64] = some s2 ∧ run 64 s2 [.deliver "B"] = some s3 ∧
+    ExactlyTop s3 ∧ (s3.ops "B").map (·.paused) = some false ∧ (∀ op, s3.ops "A" = some op → op.alive = false) ∧
+    ∀ r, ("A", r) ∉ s3.status := by
   cases h : exStable with
   | none => exact absurd h (by decide)
   | some s =>
     obtain ⟨_, _, _, _, _, hops⟩ := exStable_shape s h
-    have hg := (exStable_stable s h).good
-    have hA : ∃ s1, step 64 s (.exit "A") = some s1 := by
-      cases h1 : step 64 s (.exit "A") with
-      | some s1 => exact ⟨s1, rfl⟩
-      | none =>
-        exfalso
-        have : ((exStable.bind (fun s => step 64 s (.exit "A"))).isSome) = true := by decide
-        rw [h] at this; simp [h1] at this
-    obtain ⟨s1, h1⟩ := hA
-    have hB : ∃ s2, run 64 s1 [.deliver "B"] = some s2 := by
-      cases h2 : run 64 s1 [.deliver "B"] with
-      | some s2 => exact ⟨s2, rfl⟩
-      | none =>
-        exfalso
-        have : ((exStable.bind (fun s => (step 64 s (.exit "A")).bind (fun s1 => run 64 s1 [.deliver "B"]))).isSome) = true := by decide
-        rw [h] at this; simp [h1, h2] at this
-    obtain ⟨s2, h2⟩ := hB
-    have hcov : ∀ i op, s1.ops i = some op → op.alive = true → Label.deliver i ∈ [Label.deliver "B"] := by
-      intro i op hi ha
-      obtain ⟨o, ho, _, _, _, hops1, _⟩ := exit_spec h1
-      rw [hops1] at hi
-      by_cases hiA : i = "A"
-      · subst hiA; simp at hi; subst hi; simp at ha
-      · rw [updOp_other _ _ hiA] at hi
-        rcases hops i op hi with ⟨e, _⟩ | ⟨e, _⟩
-        · exact absurd e hiA
-        · subst e; simp
-    have hres := failover_exit_partial hg h1 [.deliver "B"] (fun l hl => by simp at hl; exact ⟨"B", hl⟩) hcov h2
-    refine ⟨s, s1, s2, rfl, h1, h2, hres.1, ?_⟩
-    have : ((exStable.bind (fun s => (step 64 s (.exit "A")).bind (fun s1 => run 64 s1 [.deliver "B"]))).map
-        (fun s => (s.ops "B").map (·.paused))) = some (some false) := by decide
-    rw [h] at this
-    simpa [h1, h2] using this
+    have hst := exStable_stable s h
+    have hr : Reachable 64 s := reachable_run exRun init s Reachable.init h
+    let mid : List Label := [.deliver "B", .tick 128, .keepalive "B" 1, .tick 64]
+    have tot : (exStable.bind (fun s => (step 64 s (.exit "A")).bind (fun s1 => (run 64 s1 mid).bind (fun s2 =>
+        (run 64 s2 [.deliver "B"]).map (fun s3 => (s3.ops "B").map (·.paused)))))) = some (some false) := by decide
+    have tot2 : (exStable.bind (fun s => (step 64 s (.exit "A")).bind (fun s1 => (run 64 s1 mid).map (fun s2 =>
+          (s2.now, s2.status, (s2.ops "A").map (·.alive), (s2.ops "B").map (fun o => (o.alive, o.prio))))))) =
+        some (192, [("B", ⟨10, 8, 127⟩)], some false, some (true, 10)) := by decide
+    rw [h] at tot tot2
+    simp only [Option.bind_some] at tot tot2
+    cases h1 : step 64 s (.exit "A") with
+    | none => simp [h1] at tot
+    | some s1 =>
+      simp only [h1, Option.bind_some] at tot tot2
+      cases h2 : run 64 s1 mid with
+      | none => simp [h2] at tot
+      | some s2 =>
+        simp only [h2, Option.bind_some, Option.map_some, Option.some.injEq, Prod.mk.injEq] at tot tot2
+        cases h3 : run 64 s2 [.deliver "B"] with
+        | none => simp [h3] at tot
+        | some s3 =>
+          simp only [h3, Option.map_some, Option.some.injEq] at tot
+          obtain ⟨hnow, hstat, hA2, hB2⟩ := tot2
+          have hn2 : ∀ i, i ≠ "A" → i ≠ "B" → s2.ops i = none := by
+            intro i hA hB
+            have : s.ops i = none := by
+              cases hi : s.ops i with
+              | none => rfl
+              | some o => rcases hops i o hi with ⟨e, _⟩ | ⟨e, _⟩ <;> contradiction
+            have h12 : run 64 s (.exit "A" :: mid) = some s2 := by simp only [run, h1]; exact h2
+            exact ops_none_of_not_started _ s s2 this (by intro l hl p L e; rw [e] at hl; simp [mid] at hl) h12
+          have res := failover_exit_partial (a := "A") hst.good (sleepAlive_reachable hr) h1 mid
+            (by intro l hl; simp only [mid, List.mem_cons, List.mem_nil_iff, or_false] at hl
+                rcases hl with rfl | rfl | rfl | rfl <;> simp [Quiet])
+            h2
+            (by
+              intro i o hi ha
+              by_cases hiA : i = "A"
+              · subst hiA; rw [hi] at hA2; simp at hA2; rw [hA2] at ha; cases ha
+              · by_cases hiB : i = "B"
+                · subst hiB; rw [hi] at hB2; simp at hB2
+                  exact ⟨⟨10, 8, 127⟩, by rw [hstat]; simp, by simp [hB2.2], by rw [hnow]; decide⟩
+                · rw [hn2 i hiA hiB] at hi; cases hi)
+            [.deliver "B"] (fun l hl => by simp at hl; exact ⟨"B", hl⟩)
+            (by
+              intro i o hi ha
+              by_cases hiA : i = "A"
+              · subst hiA; rw [hi] at hA2; simp at hA2; rw [hA2] at ha; cases ha
+              · by_cases hiB : i = "B"
+                · subst hiB; simp
+                · rw [hn2 i hiA hiB] at hi; cases hi)
+            h3
+          exact ⟨s, s1, s2, s3, rfl, h1, h2, h3, res.1, tot, res.2.1, res.2.2⟩
 
 /-- `resume_after_expiry` instantiated: A (top) is killed while B's call sleeps towards A's deadline; every peer blocking B
     is a record of A; after `expire "A"` the call wakes, its touch lands one tick late, the event is delivered, B is active. -/
@@ -954,6 +1091,17 @@ example : (run 64 init [.start "A" 100 2, .start "B" 10 10, .keepalive "A" 0, .k
                   .tick 64, .keepalive "A" 0, .tick 64]).map
     (fun s => benignView 64 s "B" 10 [("A", ⟨100, 2, 0⟩), ("B", ⟨10, 10, 0⟩)]) = some false := by decide
 
+/-- `benign_run_eq_current` instantiated: a run in which A processes an older view (B has renewed since) that is benign is the
+    run in which A processes the current status; the run of `stale_view_two_active_witness` (F4) is NOT of that kind. -/
+example : run 64 init [.start "A" 100 10, .start "B" 10 8, .keepalive "A" 0, .keepalive "B" 0, .tick 64, .keepalive "B" 0,
+                       .deliverStale "A" [("A", ⟨100, 10, 0⟩), ("B", ⟨10, 8, 0⟩)], .deliver "B", .tick 64] =
+    run 64 init [.start "A" 100 10, .start "B" 10 8, .keepalive "A" 0, .keepalive "B" 0, .tick 64, .keepalive "B" 0,
+                 .deliver "A", .deliver "B", .tick 64] :=
+  benign_run_eq_current _ init (by decide)
+
+example : benignRun 64 init [.start "A" 100 2, .start "B" 10 10, .keepalive "A" 0, .keepalive "B" 0, .deliver "A", .deliver "B",
+                  .tick 64, .keepalive "A" 0, .tick 64, .deliverStale "B" [("A", ⟨100, 2, 0⟩), ("B", ⟨10, 10, 0⟩)]] = false := by decide
+
 set_option synthInstance.maxSize 1024 in
 /-- `failover_after_loss_partial` instantiated, with a `mid` that is not empty and not only ticks: A (top) is killed in the
     stable state; B keeps renewing and keeps processing the status (still paused: A's record is alive) while 11 s pass;
@@ -1024,13 +1172,90 @@ example : ∃ s s1 s2 s3, exStable = some s ∧ step 64 s (.kill "A") = some s1 
             h3
           exact ⟨s, s1, s2, s3, rfl, h1, h2, h3, p1, p2, res.1, p3⟩
 
-/-- `withdrawn_stays` instantiated for the order of the code: A's record is withdrawn first (`exitBegin`), then B resumes,
-    renews, processes an OLD view naming A, A's handling ends, time passes: A has no record at the end. -/
+set_option synthInstance.maxSize 1024 in
+/-- `failover_after_loss_timely_partial` (and `own_record_fresh` on a run in which time passes) instantiated: A (top) is killed
+    in the stable state; B renews every 3 s, each record landing one tick after it was stamped, and processes the status
+    once; after 10 s A's record has expired. The WHOLE run from `init` passes the decidable check of `Allowed` with B = 2
+    ticks (`timely_run_on`), so the state is `Timely`; B processes the status once more and is the active one. -/
+example : ∃ s s1 s2 s3, exStable = some s ∧ step 64 s (.kill "A") = some s1 ∧
+    run 64 s1 [.tick 192, .keepalive "B" 1, .deliver "B", .tick 192, .keepalive "B" 1, .tick 192, .keepalive "B" 1, .tick 64] = some s2 ∧
+    run 64 s2 [.deliver "B"] = some s3 ∧ Timely 64 2 s2 ∧ (s2.ops "B").map (·.paused) = some true ∧
+    ExactlyTop s3 ∧ (s3.ops "B").map (·.paused) = some false := by
+  cases h : exStable with
+  | none => exact absurd h (by decide)
+  | some s =>
+    obtain ⟨_, _, _, _, _, hops⟩ := exStable_shape s h
+    have hst := exStable_stable s h
+    have hr : Reachable 64 s := reachable_run exRun init s Reachable.init h
+    let mid : List Label := [.tick 192, .keepalive "B" 1, .deliver "B", .tick 192, .keepalive "B" 1, .tick 192, .keepalive "B" 1, .tick 64]
+    have tot : (exStable.bind (fun s => (step 64 s (.kill "A")).bind (fun s1 => (run 64 s1 mid).bind (fun s2 =>
+        (run 64 s2 [.deliver "B"]).map (fun s3 => ((s2.ops "B").map (·.paused), (s3.ops "B").map (·.paused))))))) =
+        some (some true, some false) := by decide
+    have tot2 : (exStable.bind (fun s => (step 64 s (.kill "A")).bind (fun s1 => (run 64 s1 mid).map (fun s2 =>
+          (s2.now, s2.status, (s2.ops "A").map (·.alive), (s2.ops "B").map (fun o => (o.alive, o.nextKA))))))) =
+        some (640, [("A", ⟨100, 10, 0⟩), ("B", ⟨10, 8, 575⟩)], some false, some (true, some 768)) := by decide
+    have hchk : timelyRunOn 64 2 ["A", "B"] init (exRun ++ .kill "A" :: mid) = true := by decide
+    rw [h] at tot tot2
+    simp only [Option.bind_some] at tot tot2
+    cases h1 : step 64 s (.kill "A") with
+    | none => simp [h1] at tot
+    | some s1 =>
+      simp only [h1, Option.bind_some] at tot tot2
+      cases h2 : run 64 s1 mid with
+      | none => simp [h2] at tot
+      | some s2 =>
+        simp only [h2, Option.bind_some, Option.map_some, Option.some.injEq, Prod.mk.injEq] at tot tot2
+        cases h3 : run 64 s2 [.deliver "B"] with
+        | none => simp [h3] at tot
+        | some s3 =>
+          simp only [h3, Option.map_some, Option.some.injEq, Prod.mk.injEq] at tot
+          obtain ⟨p2, p3⟩ := tot
+          obtain ⟨hnow, hstat, hA2, hB2⟩ := tot2
+          have hwhole : run 64 init (exRun ++ .kill "A" :: mid) = some s2 := by
+            have h' : run 64 init exRun = some s := h
+            rw [run_append, h']
+            simp only [Option.bind_some, run, h1]
+            exact h2
+          have ht2 : Timely 64 2 s2 :=
+            timely_run_on ["A", "B"] _ init s2 Timely.init (fun _ _ => rfl) hchk hwhole
+          have hn2 : ∀ i, i ≠ "A" → i ≠ "B" → s2.ops i = none := by
+            intro i hA hB
+            exact ops_none_of_not_started _ init s2 rfl
+              (by intro l hl p L e; rw [e] at hl; simp [exRun, mid] at hl; rcases hl with ⟨rfl, _⟩ | ⟨rfl, _⟩ <;> contradiction) hwhole
+          have res := failover_after_loss_timely_partial (a := "A") (B := 2) (by decide) (by decide) hst.good
+            (sleepAlive_reachable hr) (Or.inl h1) mid
+            (by intro l hl; simp only [mid, List.mem_cons, List.mem_nil_iff, or_false] at hl
+                rcases hl with rfl | rfl | rfl | rfl | rfl | rfl | rfl | rfl <;> simp [Quiet])
+            h2 ht2
+            (by
+              intro i o hi ha
+              by_cases hiA : i = "A"
+              · subst hiA; rw [hi] at hA2; simp at hA2; rw [hA2] at ha; cases ha
+              · by_cases hiB : i = "B"
+                · subst hiB; rw [hi] at hB2; simp at hB2; exact ⟨768, hB2.2⟩
+                · rw [hn2 i hiA hiB] at hi; cases hi)
+            (by intro r hm; rw [hstat] at hm; simp at hm; rw [hm, hnow]; decide)
+            [.deliver "B"] (fun l hl => by simp at hl; exact ⟨"B", hl⟩)
+            (by
+              intro i o hi ha
+              by_cases hiA : i = "A"
+              · subst hiA; rw [hi] at hA2; simp at hA2; rw [hA2] at ha; cases ha
+              · by_cases hiB : i = "B"
+                · subst hiB; simp
+                · rw [hn2 i hiA hiB] at hi; cases hi)
+            h3
+          exact ⟨s, s1, s2, s3, rfl, h1, h2, h3, ht2, p2, res.1, p3⟩
+
+/-- `withdrawn_stays_partial` instantiated for the order of the code: A's record is withdrawn first (`exitBegin`; no self-touch
+    of A is in flight in the stable state), then B resumes, renews, processes an OLD view naming A, A's handling ends, time
+    passes: A has no record at the end. -/
 example : ∀ s s1 s', exStable = some s → step 64 s (.exitBegin "A") = some s1 →
     run 64 s1 [.deliver "B", .keepalive "B" 1, .deliverStale "B" [("A", exA), ("B", exB)], .exitEnd "A", .tick 640, .deliver "B"] = some s' →
     ∀ r, ("A", r) ∉ s'.status := by
-  intro s s1 s' _ h1 h2
-  exact withdrawn_stays (Or.inl h1) _ (by intro l hl; simp at hl; rcases hl with rfl | rfl | rfl | rfl | rfl | rfl <;> simp) h2
+  intro s s1 s' h h1 h2
+  obtain ⟨_, _, _, hA, _, _⟩ := exStable_shape s h
+  exact withdrawn_stays_partial (Or.inl h1) (by intro o ho; rw [hA] at ho; injection ho with e; subst e; rfl) _
+    (by intro l hl; simp at hl; rcases hl with rfl | rfl | rfl | rfl | rfl | rfl <;> simp) h2
 
 example : (exStable.bind (fun s => (step 64 s (.exitBegin "A")).bind (fun s1 =>
     run 64 s1 [.deliver "B", .keepalive "B" 1, .deliverStale "B" [("A", exA), ("B", exB)], .exitEnd "A", .tick 640, .deliver "B"]))).map
@@ -1052,6 +1277,14 @@ example : decideEv 64 [("X", .record { priority := none, lifetime := some (.str 
           "B" 10 true (some false) 128 128 = .error .valueError := by decide
 example : decideEv 64 [("X", .record { priority := some (.str "high"), lifetime := none, lastseen := .absent, identityKey := false })]
           "B" 10 true (some false) 128 128 = .error .typeError := by decide
+-- … and so does a lifetime `timedelta` cannot hold, or a deadline beyond year 9999 (OverflowError); the last representable one is fine
+example : decideEv 64 [("X", .record { priority := some (.num 5), lifetime := some (.num 86400000000000), lastseen := .at 0, identityKey := false })]
+          "B" 10 true (some false) 128 128 = .error .overflowError := by decide
+example : decideEv 64 [("X", .record { priority := some (.num 5), lifetime := some (.num 251508844800), lastseen := .at 0, identityKey := false })]
+          "B" 10 true (some false) 128 128 = .error .overflowError := by decide
+example : decideEv 64 [("X", .record { priority := some (.num 5), lifetime := some (.num 251508844799), lastseen := .at 63, identityKey := false })]
+          "B" 10 true (some true) 128 128
+        = .ok { cleaned := [], turned := some false, paused := some false, delays := [], sleep := none, touch := false } := by decide
 
 
 -- failover by kill + expiry + self-touch + delivery, concretely (an instance of the LTS; its last two steps are an instance of
@@ -1071,7 +1304,7 @@ example : ((run 64 init [.start "A" 100 2, .start "B" 10 10, .keepalive "A" 0, .
 example : (run 64 init [.start "A" 100 2, .start "B" 10 10, .keepalive "A" 0, .keepalive "B" 0, .deliver "B", .exit "B",
                         .tick 64, .wake "B" 0]).isSome = false := by decide
 
--- `withdrawn_stays` applies to an operator that exits WHILE its call sleeps towards a blocker's deadline
+-- `withdrawn_stays_partial` applies to an operator that exits WHILE its call sleeps towards a blocker's deadline
 example : ((run 64 init [.start "A" 100 2, .start "B" 10 10, .keepalive "A" 0, .keepalive "B" 0, .deliver "B"]).map
     (fun s => (s.ops "B").map (fun o => (o.alive, o.sleeping)))) = some (some (true, true)) := by decide
 example : ((run 64 init [.start "A" 100 2, .start "B" 10 10, .keepalive "A" 0, .keepalive "B" 0, .deliver "B", .exit "B", .tick 64]).map
